@@ -588,6 +588,104 @@ func runC05(c *Ctx) {
 		c.ob("C05-R5", fnKey(xr)+"#no-query-split-of-a-separate-path", p, len(sepLoads) > 0 && hit == nil, "ExecuteRoute looks for '?' in the request path although the caller passed the query string separately (QuerySeparate): a literal '?' in a decoded path segment is taken for the start of the query", c.blockPath(path)...)
 	}
 
+	// the dispatchers hand Router.Match the decoded path (URL.Path), the form the patterns are written in: matching the
+	// escaped form makes an equivalent spelling of a static segment (/users/%6De) miss its route and fall to a parameter
+	for _, site := range []struct{ rel, fn string }{{glyphCmd, "createHandler"}, {serverPkg, "Handler.ServeHTTP"}} {
+		root := c.fn(site.rel, site.fn)
+		if root == nil {
+			continue
+		}
+		for _, fn := range withAnon(root) {
+			k := 0
+			eachInstr(fn, func(_ *ssa.BasicBlock, _ int, ins ssa.Instruction) {
+				call, ok := ins.(*ssa.Call)
+				if !ok || callName(call) != serverPath+".Router.Match" || len(call.Call.Args) < 3 {
+					return
+				}
+				k++
+				arg := call.Call.Args[2]
+				fromPath := derivesFrom(arg, func(v ssa.Value) bool {
+					u, ok := v.(*ssa.UnOp)
+					if !ok || u.Op != token.MUL {
+						return false
+					}
+					nt, f, ok := fieldOf(u.X)
+					return ok && nt != nil && nt.Obj().Name() == "URL" && f == "Path"
+				})
+				escaped := derivesFrom(arg, func(v ssa.Value) bool {
+					if cl, ok := v.(*ssa.Call); ok {
+						switch callName(cl) {
+						case "net/url.URL.RequestURI", "net/url.URL.EscapedPath", "net/url.URL.String", "net/url.PathEscape", "net/url.QueryEscape":
+							return true
+						}
+					}
+					if u, ok := v.(*ssa.UnOp); ok && u.Op == token.MUL {
+						if nt, f, ok := fieldOf(u.X); ok && nt != nil && ((nt.Obj().Name() == "URL" && f == "RawPath") || (nt.Obj().Name() == "Request" && f == "RequestURI")) {
+							return true
+						}
+					}
+					return false
+				})
+				c.ob("C05-R7", fnKey(fn)+"#dispatcher-matches-the-decoded-path-"+itoa(k), call.Pos(), fromPath && !escaped, "the dispatcher hands Router.Match the escaped form of the request path: patterns are compared byte for byte with decoded text, so GET /users/%6De misses the static route /users/me and runs /users/:id, /user%2Dprofile is a 404, and the interpreter (which re-derives parameters from the decoded path) answers 500 where the router matched")
+			})
+		}
+	}
+
+	// ---- R10 routes are registered in declaration order
+	c.rule("C05-R10", "ORD: no route is registered (Router.RegisterRoute, directly or through a registering helper of cmd/glyph / pkg/server) from inside a loop that ranges over a Go map: the router breaks ties between equally specific patterns by registration order, and Go's map order is random - ranging the bytecode table instead of the module's items makes the winner of /t/:x/c vs /t/b/:y differ from load to load (and from the interpreter)")
+	{
+		registers := func(x ssa.Instruction) bool {
+			return isCallTo(x, serverPath+".Router.RegisterRoute", serverPath+".Server.RegisterRoute")
+		}
+		n := 0
+		for _, rel := range []string{glyphCmd, serverPkg} {
+			for _, fn := range c.srcFuncs(rel) {
+				k := 0
+				loops := naturalLoops(fn)
+				eachInstr(fn, func(_ *ssa.BasicBlock, _ int, ins ssa.Instruction) {
+					rg, ok := ins.(*ssa.Range)
+					if !ok {
+						return
+					}
+					if _, isMap := rg.X.Type().Underlying().(*types.Map); !isMap {
+						return
+					}
+					var lp *loop
+					for _, l := range loops {
+						for _, r := range refs(rg) {
+							if nx, ok := r.(*ssa.Next); ok && l.body[nx.Block()] {
+								lp = l
+							}
+						}
+					}
+					if lp == nil {
+						return
+					}
+					n++
+					bad := token.NoPos
+					for b := range lp.body {
+						for _, x := range b.Instrs {
+							if registers(x) {
+								bad = x.Pos()
+							}
+							if call, ok := x.(ssa.CallInstruction); ok {
+								if sf := staticFn(call); sf != nil && sf.Pkg != nil && strings.HasPrefix(sf.Pkg.Pkg.Path(), modPath) && reachesInstr(sf, registers, 0, map[*ssa.Function]bool{}) {
+									bad = x.Pos()
+								}
+							}
+						}
+					}
+					if bad != token.NoPos {
+						k++
+						c.ob("C05-R10", fnKey(fn)+"#routes-registered-in-map-order-"+itoa(k), bad, false, "routes are registered while ranging over a Go map: registration order - the router's tie-break between equally specific patterns - is then random per program load instead of the order of declaration")
+					}
+				})
+			}
+		}
+		c.Sites["C05-R10#map-ranges-examined"] = n
+		c.ob("C05-R10", glyphCmd+"#registration-follows-declaration-order", token.NoPos, true, "")
+	}
+
 	// ---- R9 path parameters are what the route declared under their names
 	c.rule("C05-R9", "ORD: in both engines no binding under a constant name (the built-in request variables query, input, headers, auth) and no binding of a declared query parameter is made after the last binding of the path parameters (the loop over the router's / the pattern's parameter map): a parameter such as /search/:query keeps the request segment, whatever else is called `query`")
 	{
